@@ -117,6 +117,7 @@ static int run_script(const scen *S, const int *singles, int ns, int from, int *
     nbl = 0; req_no = 0; nfail_single = ns; memcpy(fail_single, singles, sizeof(int) * (size_t) ns); fail_from = from; inj_hits = bad_free = double_free = bad_unmap = 0;
     errno = 0; armed = 1; r = S->run(obs); armed = 0; nfail_single = 0; fail_from = 0;
     if (inj_hits == 0) return 1;         /* the script named a request that does not occur: nothing injected */
+    printf("SAMPLE %s: allocation request(s) %s refused -> returned %d, %d live blocks afterwards\n", S->name, scr, r, live_blocks());
     if (r == 0) {
         if (S->kind == 2 || S->kind == 3) vf_fail(key, "string verification reported a MATCH although an allocation failed");
         else if (S->kind == 4) { if (r != base_expect_rehash) vf_fail(key, "needs_rehash returned 0 (up to date) after an allocation failure; fault-free answer is %d", base_expect_rehash); }
